@@ -103,6 +103,16 @@ func bucketClockScenario(c *sup.Ctx, r *rng.R) {
 				body := []byte(fmt.Sprintf(`{"w":"%d.%d"}`, wi, i))
 				var cas uint64
 				var err error
+				if wr.Intn(12) == 0 {
+					// another bucket is opened (its persisted high-water mark is lower than the clock's), and a
+					// foreign document with an old CAS is stored: neither may pull the clock backwards
+					if nb2, e2 := conc.OpenBucket(c.Tmp, wr.Bool(), 1); e2 == nil {
+						old := uint64(1_600_000_000_000_000_000) + wr.U64()%1000
+						_ = nb2.Colls[0].SetWithMeta(ctx, "foreign", 0, old, 0, nil, []byte(`{"f":1}`), sgbucket.FeedDataTypeJSON)
+						nb2.Close()
+					}
+					_ = col.SetWithMeta(ctx, fmt.Sprintf("foreign%d", wi), 0, uint64(1_600_000_000_000_000_000)+wr.U64()%100000, 0, nil, []byte(`{"f":2}`), sgbucket.FeedDataTypeJSON)
+				}
 				call := conc.Tick.Add(1)
 				switch wr.Intn(8) {
 				case 0:
